@@ -14,6 +14,7 @@
 #include "replay_common.h"
 
 #include <optional>
+#include <functional>
 
 using namespace rp;
 using cocls_verif::vsched;
@@ -21,14 +22,40 @@ using cocls_verif::op_t;
 
 struct TestExc : std::exception { int who; explicit TestExc(int w) : who(w) {} };
 
+// ---- payload: int (default) or, with -DPAYLOAD_BIG, a 64-byte tracked object: every byte carries the resolver's
+// identity (integrity is checked by every reader), copies are counted (the library never needs to copy a payload that
+// is constructed in place and read by reference), and it does not fit the small buffers of type-erasing wrappers
+#ifdef PAYLOAD_BIG
+struct Big {
+    int who;
+    unsigned char pad[60];
+    static inline std::atomic<long> copies{0};
+    Big(int w) : who(w) { memset(pad, (unsigned char) w, sizeof pad); }
+    Big(const Big &o) : who(o.who) { memcpy(pad, o.pad, sizeof pad); copies++; }
+    Big(Big &&o) noexcept : who(o.who) { memcpy(pad, o.pad, sizeof pad); }
+    Big &operator=(const Big &o) { who = o.who; memcpy(pad, o.pad, sizeof pad); copies++; return *this; }
+    Big &operator=(Big &&o) noexcept { who = o.who; memcpy(pad, o.pad, sizeof pad); return *this; }
+};
+using Payload = Big;
+static int who_of(const Big &b) {
+    for (unsigned char c : b.pad) if (c != (unsigned char) b.who) return 9000 + b.who;   // torn / garbage payload
+    return b.who;
+}
+static long payload_copies() { return Big::copies.load(); }
+#else
+using Payload = int;
+static int who_of(int v) { return v; }
+static long payload_copies() { return 0; }
+#endif
+
 // ---- probes: read protected state through pointers to members obtained via a derived class ------
-struct FProbe : cocls::future<int> {
+struct FProbe : cocls::future<Payload> {
     static auto slot_mp() { return &FProbe::_awaiter; }
     static auto state_mp() { return &FProbe::_state; }
     static auto value_mp() { return &FProbe::_value; }
     static auto exc_mp() { return &FProbe::_exception; }
 };
-struct PProbe : cocls::promise<int> {
+struct PProbe : cocls::promise<Payload> {
     static auto owner_mp() { return &PProbe::_owner; }
 };
 
@@ -67,8 +94,8 @@ struct CbAwaiter : cocls::awaiter {
 };
 
 struct World {
-    cocls::future<int> fut;
-    cocls::promise<int> *p = nullptr;   // heap object: alive until its destructor has returned
+    cocls::future<Payload> fut;
+    cocls::promise<Payload> *p = nullptr;   // heap object: alive until its destructor has returned
     const void *p_owner_addr = nullptr;
     bool fine = false;      // finest grain (FutureFine.tla): yield before AND after every atomic operation
     std::map<std::string, const void *> q_owner_addr;   // masg: the assigned-to promise of each such thread
@@ -81,8 +108,11 @@ struct World {
     // documented as equivalent (promise(x) / set_value(x) / set_exception(e) / unhandled_exception();
     // subscribe(awaiter*) / co_awaiter::await_suspend(resume_fn, void*)); form = header "form" + index of the thread
     int form = 0;
+    bool bind = false;      // the (single) value resolver goes through promise::bind(args...)()
+    long copies0 = 0;
+    std::function<bool()> call_bound;
     struct FnCtx { World *world; Rec *rec; };
-    std::map<std::string, std::unique_ptr<cocls::co_awaiter<cocls::future<int>>>> fnaw;   // cb waiters, form 1
+    std::map<std::string, std::unique_ptr<cocls::co_awaiter<cocls::future<Payload>>>> fnaw;   // cb waiters, form 1
     std::map<std::string, FnCtx> fnctx;
     std::map<std::string, cocls::awaiter *> cbnode;   // the awaiter node of every cb waiter (either form)
     std::map<std::uint64_t, std::string> node_of;   // awaiter node address -> waiter
@@ -97,9 +127,9 @@ struct World {
 
 static void read_result(World &w, Rec &r) {
     try {
-        int v = w.fut.value();
+        const Payload &v = w.fut.value();
         r.tag = "val";
-        r.payload = w.payload_name(v);
+        r.payload = w.payload_name(who_of(v));
     } catch (const TestExc &e) {
         r.tag = "exc";
         r.payload = w.payload_name(e.who);
@@ -122,9 +152,9 @@ static cocls::suspend_point<void> fn_fire(cocls::awaiter *, void *ctx) noexcept 
 
 static cocls::async<void> co_waiter(World &w, Rec &r) {
     try {
-        int v = co_await w.fut;
+        const Payload &v = co_await w.fut;
         r.tag = "val";
-        r.payload = w.payload_name(v);
+        r.payload = w.payload_name(who_of(v));
     } catch (const TestExc &e) {
         r.tag = "exc";
         r.payload = w.payload_name(e.who);
@@ -144,8 +174,8 @@ static cocls::async<void> hv_waiter(World &w, Rec &r) {
     r.done = true;
 }
 
-static cocls::async<int> final_coro(int who) {
-    co_return who;
+static cocls::async<Payload> final_coro(int who) {
+    co_return Payload(who);
 }
 
 static std::string pend_site(World &w, const std::string &name, bool resolver);
@@ -197,9 +227,21 @@ static std::string pend_site(World &w, const std::string &name, bool resolver) {
 static J project(World &w) {
     J m = J::map();
     m.set("allocs", (long) w.allocs.load());
+    m.set("copies", payload_copies() - w.copies0);
     // owner
     std::string owner = "null";
-    if (w.p) owner = ((*w.p).*PProbe::owner_mp()).verif_peek() ? "fut" : "null";
+    using OwnerAtomic = std::remove_reference_t<decltype((*w.p).*PProbe::owner_mp())>;
+    if (w.bind && !w.p_owner_addr) {
+        // the promise was moved into the closure returned by bind(): its owner pointer is the object of the resolver's
+        // first atomic operation (the claiming exchange)
+        for (auto &kv : w.rkind) {
+            int t = w.tid[kv.first];
+            if (w.sched.parked(t) && !w.sched.pending_after(t) && w.sched.pending(t).op == op_t::xchg && w.sched.pending(t).obj != &(w.fut.*FProbe::slot_mp()))
+                w.p_owner_addr = w.sched.pending(t).obj;
+        }
+    }
+    if (w.bind) owner = w.p_owner_addr ? (static_cast<const OwnerAtomic *>(w.p_owner_addr)->verif_peek() ? "fut" : "null") : "fut";
+    else if (w.p) owner = ((*w.p).*PProbe::owner_mp()).verif_peek() ? "fut" : "null";
     m.set("owner", owner);
     // learn node addresses from pending CAS operations
     for (auto &kv : w.wkind) {
@@ -223,7 +265,7 @@ static J project(World &w) {
     auto st = w.fut.*FProbe::state_mp();
     using S = cocls::future_common::State;
     if (st == S::not_value) { m.set("tag", "none"); m.set("payload", "none"); }
-    else if (st == S::value) { m.set("tag", "val"); m.set("payload", w.payload_name(w.fut.*FProbe::value_mp())); }
+    else if (st == S::value) { m.set("tag", "val"); m.set("payload", w.payload_name(who_of(w.fut.*FProbe::value_mp()))); }
     else if (st == S::exception) {
         m.set("tag", "exc");
         try { std::rethrow_exception(w.fut.*FProbe::exc_mp()); }
@@ -320,14 +362,30 @@ static void run_one(const Scenario &sc, Reporter &rep, Explore *ex) {
     w.fine = sc.hdr.at("fine").as_bool(false);
     w.form = (int) sc.hdr.at("form").as_int(0) + (ex ? (int) (ex->next() % 6) : 0);
     w.sched.yield_after = w.fine;
-    w.p = new cocls::promise<int>(w.fut.get_promise());
+    w.p = new cocls::promise<Payload>(w.fut.get_promise());
     w.p_owner_addr = &((*w.p).*PProbe::owner_mp());
+    w.copies0 = payload_copies();
+    w.bind = sc.hdr.at("bind").as_bool(false);
     if (w.sched.record_motable) {
         cocls_verif::motable::get().label(&(w.fut.*FProbe::slot_mp()), sizeof(void *), "future.slot");
         cocls_verif::motable::get().label(w.p_owner_addr, sizeof(void *), "promise.owner");
     }
-    cocls::async<int> *fin = nullptr;
-    std::optional<cocls::async<int>> fin_store;
+    // bind form: the promise is moved into the closure returned by bind(args...) before the threads start; the value
+    // resolver later just calls the closure.  Allocations made by bind() itself are the library's.
+    auto make_bound = [&](int who) { return w.p->bind(Payload(who)); };
+    using Bound = decltype(make_bound(0));
+    std::optional<Bound> bound;
+    if (w.bind) {
+        int who = 0;
+        for (auto &kv : w.rkind) if (kv.second == "val") who = atoi(kv.first.c_str() + 1);
+        long n0 = alloc_stats::news;
+        bound.emplace(make_bound(who));
+        w.allocs += alloc_stats::news - n0;
+        w.p_owner_addr = nullptr;       // learned from the resolver's first pending operation
+        w.call_bound = [&bound] { return (bool) (*bound)(); };
+    }
+    cocls::async<Payload> *fin = nullptr;
+    std::optional<cocls::async<Payload>> fin_store;
     for (auto &kv : w.rkind) if (kv.second == "final") {
         fin_store.emplace(final_coro(atoi(kv.first.c_str() + 1)));
         fin = &*fin_store;
@@ -351,7 +409,7 @@ static void run_one(const Scenario &sc, Reporter &rep, Explore *ex) {
             warm_thread();
             if (kind == "val") {
                 bool b;
-                { lib_scope s; if (form % 2 == 0) b = (*w.p)(who); else b = w.p->set_value(who); }
+                { lib_scope s; if (w.bind) b = w.call_bound(); else if (form % 2 == 0) b = (*w.p)(who); else b = w.p->set_value(who); }
                 w.rres[name] = b ? "true" : "false";
             } else if (kind == "exc") {
                 bool b;
@@ -370,10 +428,10 @@ static void run_one(const Scenario &sc, Reporter &rep, Explore *ex) {
                 w.rres[name] = b ? "true" : "false";
             } else if (kind == "mdes") {
                 lib_scope s;
-                cocls::promise<int> q(std::move(*w.p));
+                cocls::promise<Payload> q(std::move(*w.p));
             } else if (kind == "masg") {
                 lib_scope s;
-                cocls::promise<int> q;
+                cocls::promise<Payload> q;
                 { alloc_pause np; w.q_owner_addr[name] = &(q.*PProbe::owner_mp()); }
                 q = std::move(*w.p);
             } else if (kind == "dtor") {
@@ -399,7 +457,7 @@ static void run_one(const Scenario &sc, Reporter &rep, Explore *ex) {
                 w.cbs[name]->rec = &w.recs[name];
                 w.cbnode[name] = w.cbs[name].get();
             } else {
-                w.fnaw[name].reset(new cocls::co_awaiter<cocls::future<int>>(w.fut.operator co_await()));
+                w.fnaw[name].reset(new cocls::co_awaiter<cocls::future<Payload>>(w.fut.operator co_await()));
                 w.fnctx[name] = World::FnCtx{pw, &w.recs[name]};
                 w.cbnode[name] = w.fnaw[name].get();
             }
